@@ -23,6 +23,7 @@ RULE = ('RuleBasedStateMachine over a universe of 8 certificates x 2 halves (sha
         'up to a bounded length over a 4-object universe. Non-trivial: history with an unload followed by a load or by a lookup of a shared alias; '
         'distinct by operation sequence.')
 RULE += ' Names differing only by blanks; several items for the same key in one load call; re-loading the object whose subkey was unloaded on its own; key(signature) for a signature that names its issuer by fingerprint only; key(message) for several recipients of which one private key is loaded.'
+RULE += ' The universe also holds names made of hex letters and blanks, a bare-address user id, a user id with a line break and a name that is the key id of another certificate; key(signature) must return the issuer, not a key that carries the key id as a name.'
 ASSUMPTIONS = ['which of several carriers of a shared identifier is returned is not asserted', 'loading the same PGPKey object twice is a no-op (documented by the code: keyed by object identity)',
                'two loads of the same blob give two independent objects; unload removes the one it is given']
 
